@@ -309,6 +309,65 @@ func runC20(ctx *core.Ctx) {
 			cs.Flush(lc)
 		})
 	}
+	// one giant token whose written form is larger than its source form (every & < > " ' CR
+	// becomes a 4-5 byte reference): the second pass reads a token up to five times the size of
+	// the one the first pass read, so any size-dependent behaviour of the reader (a buffer cap, a
+	// fast path above some length) shows as a difference between the passes. Sizes climb by x4
+	// and '&' grows x5, so the intervals [n, 5n) of caught thresholds are contiguous from 32 KiB
+	// to 40 MiB (quick) / 160 MiB (thorough). Sequential: each case holds two strings of 5n bytes.
+	ladder := []int{32 << 10, 128 << 10, 512 << 10, 2 << 20, 8 << 20}
+	if !ctx.Quick() {
+		ladder = append(ladder, 32<<20)
+	}
+	type giant struct{ pol, shape, unit string }
+	giants := []giant{{"strict", "text", "&"}, {"ugc", "text", "&"}, {"ugc", "text", "\""}, {"ugc", "text", "a\r>'"}, {"ugc", "text", "< "},
+		{"title", "attr", "&"}, {"title", "attr", "<\""}, {"ugc", "nested-text", "&"}}
+	ctx.RunSeq("growth-ladder", len(ladder)*len(giants), func(cs *core.Case) {
+		n, g := ladder[cs.Index/len(giants)], giants[cs.Index%len(giants)]
+		if n > 8<<20 && g.unit != "&" { // the top rung only with the densest growth
+			cs.Skip("top rung runs with '&' only")
+			return
+		}
+		var ops []spec.Op
+		switch g.pol {
+		case "strict":
+			ops = []spec.Op{{K: spec.KStrict}}
+		case "ugc":
+			ops = []spec.Op{{K: spec.KUGC}}
+		default:
+			ops = []spec.Op{{K: spec.KNew}, {K: spec.KAllowElements, Names: []string{"p"}}, {K: spec.KAllowAttrs, Attrs: []string{"title"}, Scope: "global"}}
+		}
+		env := NewEnv(ops)
+		if ok, why := inClassC20(env.Spec); !ok && g.pol == "title" {
+			cs.Skip("growth-ladder policy outside the class: " + why)
+			return
+		}
+		body := strings.Repeat(g.unit, n/len(g.unit))
+		in := body
+		switch g.shape {
+		case "attr":
+			in = `<p title="` + strings.ReplaceAll(body, `"`, "'") + `">x</p>`
+		case "nested-text":
+			in = "<p><b>" + body + "</b></p>"
+		}
+		s1 := env.Pol.Sanitize(in)
+		s2 := env.Pol.Sanitize(s1)
+		cs.Eval()
+		cs.Count("double_sanitise_comparisons", 1)
+		cs.Count("growth_ladder_cases", 1)
+		ctx.ExtraMax("growth_ladder_largest_second_pass_input_bytes", int64(len(s1)))
+		if len(s1) > len(in)+len(in)/2 {
+			cs.Count("growth_ladder_cases_output_grew_by_half_or_more", 1)
+		}
+		if s2 != s1 {
+			cs.Violate("C20:not-idempotent:giant-token", fmt.Sprintf("Sanitize(Sanitize(x)) != Sanitize(x) for one %d-byte %s token made of %q under %s: len(first)=%d len(second)=%d first=%q second=%q", len(in), g.shape, g.unit, g.pol, len(s1), len(s2), core.Clip(s1, 80), core.Clip(s2, 80)),
+				map[string]interface{}{"policy": spec.Describe(ops), "shape": g.shape, "unit": g.unit, "input_bytes": len(in), "first_pass_bytes": len(s1), "second_pass_bytes": len(s2)})
+		}
+		if s1 != "" {
+			cs.Nontrivial(core.Hash(g.pol, g.shape, g.unit, fmt.Sprint(n)))
+		}
+	})
+	ctx.Floor("growth_ladder_cases_output_grew_by_half_or_more", 20)
 	piecesWorkload(ctx, ctx.N(4, 5), []string{"ugc"}, func(cs *core.Case, ob *Obs, lc core.LocalCounts) { judge(cs, ob, lc, true) })
 	piecesWorkload(ctx, ctx.N(4, 4), []string{"strict", "pattern-everything", "foreign"}, func(cs *core.Case, ob *Obs, lc core.LocalCounts) { judge(cs, ob, lc, false) })
 	ctx.MinNontrivial(int64(ctx.N(20000, 300000)))
